@@ -7,7 +7,7 @@ changed" an obligation over every state field not listed in `modifies`.
 """
 import datetime as dt
 
-from engine.spec import T, contract, exists, forall, forall_str, fullmatch, implies, lemma, map_get, map_set, opaque, today
+from engine.spec import T, contract, exists, forall, forall_str, fullmatch, implies, lemma, map_get, map_set, opaque, plist_append, plist_last, today
 from zorg.domain.models import H1, H2, H3, H4, Block, Note, Page, TodoPayload
 from zorg.domain.types import NoteType
 from zorg.service.compiler._file_compiler import ErrorManager, ZorgFileCompiler, _ZorgFileCompilerState
@@ -272,17 +272,17 @@ contract(
     modifies={"self._s.ids_in_note": T.int(), "self._s.modify_date": T.opt(T.date()), "self._s.zid": T.opt(T.str()), "self._s.note_date": T.opt(T.date())},
     ensures={
         "counter": "self._s.ids_in_note == old(self._s.ids_in_note) + (1 if old(self._s.in_note) else 0)",
-        "modify-date": "implies(old(self._s.in_note) and old(self._s.ids_in_note) == 0 and six_digits(ctx.getText()), "
+        "modify-date": "implies(old(self._s.in_note) and old(self._s.ids_in_note) == 0 and six_digits(ctx.getText()) and valid_ymd('20' + ctx.getText()), "
                        "self._s.modify_date == date_of_ymd('20' + ctx.getText()) and self._s.zid == old(self._s.zid) and self._s.note_date == old(self._s.note_date))",
         "zid": "implies(old(self._s.in_note) and is_first_or_second_after_mdate(old(self._s.ids_in_note) + 1, old(self._s.modify_date)) "
-               "and zid_shaped(ctx.getText()), "
+               "and zid_shaped(ctx.getText()) and valid_ymd('20' + ctx.getText()[:6]), "
                "self._s.zid == ctx.getText() and self._s.note_date == date_of_ymd('20' + ctx.getText()[:6]) and self._s.modify_date == old(self._s.modify_date))",
         "otherwise-unchanged": "implies(not old(self._s.in_note) or not ("
-                               "(old(self._s.ids_in_note) == 0 and six_digits(ctx.getText())) or "
-                               "(is_first_or_second_after_mdate(old(self._s.ids_in_note) + 1, old(self._s.modify_date)) and zid_shaped(ctx.getText()))), "
+                               "(old(self._s.ids_in_note) == 0 and six_digits(ctx.getText()) and valid_ymd('20' + ctx.getText())) or "
+                               "(is_first_or_second_after_mdate(old(self._s.ids_in_note) + 1, old(self._s.modify_date)) and zid_shaped(ctx.getText()) and valid_ymd('20' + ctx.getText()[:6]))), "
                                "self._s.zid == old(self._s.zid) and self._s.note_date == old(self._s.note_date) and self._s.modify_date == old(self._s.modify_date))",
     },
-    note="raises nothing on a conforming tree (C08); F4: strptime raises ValueError for a date-shaped word that is not a calendar date",
+    note="raises nothing on a conforming tree (C08); a date-shaped word that is not a calendar date is an ordinary word (fix 7427158)",
 )
 
 # ---- enterDate: a leading YYYY-MM-DD is the item's create date; in headers / title the scope's date -----
@@ -293,8 +293,8 @@ contract(
     frame=True,
     modifies={f"self._s.{d}": T.opt(T.date()) for d in ("note_date", "h1_date", "h2_date", "h3_date", "h4_date", "file_date")},
     ensures={
-        "route": "date_target(old(self._s)) == 'none' or scope_date(self._s, date_target(old(self._s))) == date_of_y_m_d(ctx.DATE().getText())",
-        "others-unchanged": "all(date_target(old(self._s)) == lv or scope_date(self._s, lv) == scope_date(old(self._s), lv) for lv in LEVELS)",
+        "route": "implies(valid_y_m_d(ctx.DATE().getText()), date_target(old(self._s)) == 'none' or scope_date(self._s, date_target(old(self._s))) == date_of_y_m_d(ctx.DATE().getText()))",
+        "others-unchanged": "all((valid_y_m_d(ctx.DATE().getText()) and date_target(old(self._s)) == lv) or scope_date(self._s, lv) == scope_date(old(self._s), lv) for lv in LEVELS)",
     },
 )
 
@@ -307,3 +307,252 @@ def date_target(s):
 def scope_date(s, lv):
     return (s.note_date if lv == "note" else s.h4_date if lv == "h4" else s.h3_date if lv == "h3" else s.h2_date if lv == "h2"
             else s.h1_date if lv == "h1" else s.file_date)
+
+
+# ---- section headers / blocks: structure of the page (C01 order, C05 section path) ---------------
+def _hdr(k, parent_expr, child_list):
+    return {
+        "flag": f"self._s.in_h{k}_header == True",
+        "section": f"self._s.h{k} is not None and self._s.h{k}.title == ctx.space_atoms().getText().strip() and self._s.h{k}.blocks == []",
+    }
+
+
+contract(
+    M + "enterH1_header", props=["C01", "C02", "C08"], args={"self": SELF(), "ctx": CTX(T.str(), space_atoms=CTX(T.str()))}, frame=True,
+    modifies={"self._s.in_h1_header": T.bool(), "self._s.h1": T.opt(H1T), "self.page.h1s": T.plist()},
+    ensures={**_hdr(1, None, None), "appended-last": "self.page.h1s == plist_append(old(self.page.h1s), self._s.h1)"},
+)
+contract(
+    M + "enterH2_header", props=["C01", "C02", "C08"], args={"self": SELF(), "ctx": CTX(T.str(), space_atoms=CTX(T.str()))}, frame=True,
+    modifies={"self._s.in_h2_header": T.bool(), "self._s.h2": T.opt(H2T), "self._s.h1.h2s": T.plist(), "self.page.h0": T.opt(H1T)},
+    ensures={
+        **_hdr(2, None, None),
+        "parent": "(self._s.h1.h2s == plist_append(old(self._s.h1.h2s), self._s.h2)) if old(self._s.h1) is not None else "
+                  "(self.page.h0 is not None and plist_last(self.page.h0.h2s) is self._s.h2)",
+    },
+)
+contract(
+    M + "enterH3_header", props=["C01", "C02", "C08"], args={"self": SELF(), "ctx": CTX(T.str(), space_atoms=CTX(T.str()))}, frame=True,
+    requires={"G2/G6: an h2 section is open": "self._s.h2 is not None"},
+    modifies={"self._s.in_h3_header": T.bool(), "self._s.h3": T.opt(H3T), "self._s.h2.h3s": T.plist()},
+    ensures={**_hdr(3, None, None), "parent": "self._s.h2.h3s == plist_append(old(self._s.h2.h3s), self._s.h3)"},
+)
+contract(
+    M + "enterH4_header", props=["C01", "C02", "C08"], args={"self": SELF(), "ctx": CTX(T.str(), space_atoms=CTX(T.str()))}, frame=True,
+    requires={"G2/G6: an h3 section is open": "self._s.h3 is not None"},
+    modifies={"self._s.in_h4_header": T.bool(), "self._s.h4": T.opt(H4T), "self._s.h3.h4s": T.plist()},
+    ensures={**_hdr(4, None, None), "parent": "self._s.h3.h4s == plist_append(old(self._s.h3.h4s), self._s.h4)"},
+)
+contract(
+    M + "enterBlock", props=["C01", "C05", "C08"], args={"self": SELF(), "ctx": CTX()}, frame=True,
+    modifies={"self._s.block": T.opt(BLOCK), "self._s.h4.blocks": T.plist(), "self._s.h3.blocks": T.plist(), "self._s.h2.blocks": T.plist(),
+              "self._s.h1.blocks": T.plist(), "self.page.h0": T.opt(H1T)},
+    ensures={
+        "fresh-empty-block": "self._s.block is not None and self._s.block.notes == []",
+        "attached-to-deepest-open-section": "plist_last(deepest(self).blocks) is self._s.block",
+        "nothing-else-attached": "all_other_blocklists_unchanged(self, old(self))",
+    },
+)
+
+
+def deepest(c):
+    s = c._s
+    return s.h4 if s.h4 is not None else s.h3 if s.h3 is not None else s.h2 if s.h2 is not None else s.h1 if s.h1 is not None else c.page.h0
+
+
+def all_other_blocklists_unchanged(c, o):
+    d = deepest(o) if (o._s.h4 is not None or o._s.h3 is not None or o._s.h2 is not None or o._s.h1 is not None) else None
+    ok = True
+    if o._s.h4 is not None and d is not o._s.h4:
+        ok = ok and c._s.h4.blocks == o._s.h4.blocks
+    if o._s.h3 is not None and d is not o._s.h3:
+        ok = ok and c._s.h3.blocks == o._s.h3.blocks
+    if o._s.h2 is not None and d is not o._s.h2:
+        ok = ok and c._s.h2.blocks == o._s.h2.blocks
+    if o._s.h1 is not None and d is not o._s.h1:
+        ok = ok and c._s.h1.blocks == o._s.h1.blocks
+    return ok
+
+
+# ---- tag-like listener methods route through _add_tag (C02) ----------------------------------------
+def CTX2():
+    """a context with two children (symbol, id): ctx.children[1].getText() is the tag value"""
+    return T.rec("ParserCtx", {"text": T.str(), "children": T.clist(CTX(T.str()), 2, 2)})
+
+
+def tag_effect(tag_name, value_expr, guard="True"):
+    ens = {"digits-dropped": f"implies(({guard}) and only_digits({value_expr}), " + " and ".join(f"tags_unchanged(self._s.{lv}_tags, old(self._s.{lv}_tags))" for lv in LEVELS) + ")"}
+    for lv in LEVELS:
+        others = " and ".join(f"tags_unchanged(self._s.{o}_tags, old(self._s.{o}_tags))" for o in LEVELS if o != lv)
+        ens[f"route-{lv}"] = (
+            f"implies(({guard}) and not only_digits({value_expr}) and old(tag_target(self._s)) == '{lv}', "
+            f"appended(self._s.{lv}_tags['{tag_name}'], old(self._s.{lv}_tags['{tag_name}']), {value_expr}) and "
+            f"all(self._s.{lv}_tags[t] == old(self._s.{lv}_tags[t]) for t in TAG_NAMES if t != '{tag_name}') and {others})"
+        )
+    ens["no-scope-or-guard-dropped"] = f"implies(not ({guard}) or old(tag_target(self._s)) == 'none', " + " and ".join(f"tags_unchanged(self._s.{lv}_tags, old(self._s.{lv}_tags))" for lv in LEVELS) + ")"
+    return ens
+
+
+_TAGMOD = {f"self._s.{lv}_tags": TAGS() for lv in LEVELS}
+for meth, tname, vexpr in [
+    ("enterArea", "areas", "ctx.children[1].getText()"),
+    ("enterContext", "contexts", "ctx.children[1].getText()"),
+    ("enterPerson", "people", "ctx.children[1].getText()"),
+    ("enterProject", "projects", "ctx.children[1].getText()"),
+    ("enterLink", "links", "ctx.children[1].getText()"),
+    ("enterGlobal_link", "links", "'global:' + ctx.children[1].getText()"),
+    ("enterRef_link", "links", "'ref:' + ctx.children[1].getText()"),
+    ("enterZid_link", "links", "'zid:' + ctx.children[1].getText()"),
+]:
+    contract(M + meth, props=["C02", "C08"], args={"self": SELF(), "ctx": CTX2()}, frame=True, modifies=_TAGMOD, ensures=tag_effect(tname, vexpr))
+contract(M + "enterLocal_link", props=["C02", "C08"], args={"self": SELF(), "ctx": CTX2()}, frame=True, modifies=_TAGMOD,
+         ensures=tag_effect("links", "'local:' + ctx.children[1].getText()", guard="ctx.children[1].getText() != 'X'"))
+contract(M + "enterUrl", props=["C02", "C08"], args={"self": SELF(), "ctx": CTX(T.str())}, frame=True, modifies=_TAGMOD,
+         ensures=tag_effect("links", "'x:' + ctx.getText()"))
+
+_prop_ens2 = {}
+for lv in LEVELS:
+    others = " and ".join(f"self._s.{o}_props == old(self._s.{o}_props)" for o in LEVELS if o != lv)
+    _prop_ens2[f"route-{lv}"] = (
+        f"implies(old(prop_target(self._s)) == '{lv}', self._s.{lv}_props == map_set(old(self._s.{lv}_props), ctx.id_().getText(), ctx.simple_prop_value().getText()) and {others})"
+    )
+_prop_ens2["skipped-or-no-scope"] = "implies(old(prop_target(self._s)) in ('skip', 'none'), " + " and ".join(f"self._s.{lv}_props == old(self._s.{lv}_props)" for lv in LEVELS) + ")"
+contract(M + "enterSimple_prop", props=["C02", "C08"],
+         args={"self": SELF(), "ctx": CTX(T.str(), id_=CTX(T.str()), simple_prop_value=CTX(T.str()))}, frame=True,
+         modifies={f"self._s.{lv}_props": PROPS() for lv in LEVELS}, ensures=_prop_ens2)
+
+# ---- merged metadata --------------------------------------------------------------------------------
+contract(
+    S_ + "properties", props=["C02"], args={"self": STATE()}, returns=PROPS(), frame=True, opaque_call=False,
+    ensures={
+        "union": "forall_str(lambda k: (k in result) == merged_has(self, k))",
+        "innermost-wins": "forall_str(lambda k: implies(k in result, result[k] == merged_get(self, k)))",
+    },
+)
+
+
+@opaque("list:str")
+def cur_tags(file_l, h1_l, h2_l, h3_l, h4_l, note_l):
+    """sorted set of the tags of all six scopes"""
+    return sorted(set(list(file_l) + list(h1_l) + list(h2_l) + list(h3_l) + list(h4_l) + list(note_l)))
+
+
+def cur_tags_of(s, t):
+    return cur_tags(s.file_tags[t], s.h1_tags[t], s.h2_tags[t], s.h3_tags[t], s.h4_tags[t], s.note_tags[t])
+
+
+contract(
+    S_ + "_get_current_tags", props=["C02"], args={"self": STATE(), "tag_name": T.str()}, returns=T.listval(T.str()), assumed=True,
+    requires={"tag-kind": "tag_name in TAG_NAMES"},
+    ensures={"sorted-union": "result == cur_tags_of(self, tag_name)"},
+    note="ASSUMED at call sites (sorted(set(...)) of symbolic-length lists is outside the VC generator); checked by the bounded tier",
+)
+
+
+# ---- _add_note: one note per item with exactly what the item says (C01) ------------------------------
+def _add_note_prelude(interp, loc):
+    import z3
+    from engine import sym
+
+    ctx = interp.ctx
+    if ctx.branch(ctx.fresh("is_todo", z3.BoolSort()), "todo item"):
+        tp = sym.Rec("TodoPayload", {"priority": sym.TStr().fresh(ctx, "payload.priority"), "status": sym.TEnum(NoteType).fresh(ctx, "payload.status")}, cls=TodoPayload)
+        loc["extra_kwargs"] = {"todo_payload": tp}
+    else:
+        loc["extra_kwargs"] = {}
+
+
+NOTE_BODY = T.opt(T.rec("ParserCtx", {"text": T.str(), "start": T.rec("Token", {"line": T.int(1, None)})}))
+
+
+def emits(self, note_body):
+    return note_body is not None and note_body.getText().strip() != "" and len(self.error_manager.errors) == 0
+
+
+def new_note(self):
+    return plist_last(self._s.block.notes)
+
+
+contract(
+    M + "_add_note", props=["C01", "C02", "C08"],
+    args={"self": SELF(), "note_body": NOTE_BODY}, prelude=_add_note_prelude,
+    requires={
+        "inside-a-block": "self._s.block is not None",
+        "no-bullet-property-markers (the bullet scan is served by the bounded tier)": "note_body is None or (':: ' not in note_body.getText().strip() and '::\\n' not in note_body.getText().strip())",
+    },
+    frame=True, modifies={"self._s.block.notes": T.plist(), "self.page.has_errors": T.bool()},
+    ensures={
+        "emits-iff": "(self._s.block.notes == plist_append(old(self._s.block.notes), new_note(self))) if old(emits(self, note_body)) else (self._s.block.notes == old(self._s.block.notes))",
+        "body-verbatim-up-to-outer-whitespace": "implies(old(emits(self, note_body)), new_note(self).body == note_body.getText().strip())",
+        "line": "implies(old(emits(self, note_body)), new_note(self).line_no == note_body.start.line)",
+        "zid": "implies(old(emits(self, note_body)), new_note(self).zid == old(self._s.zid))",
+        "create-date": "implies(old(emits(self, note_body)), new_note(self).create_date == old(self._s.create_date))",
+        "modify-date": "implies(old(emits(self, note_body)), new_note(self).modify_date == (old(self._s.modify_date) if old(self._s.modify_date) is not None else old(self._s.create_date)))",
+        "kind-and-priority": "implies(old(emits(self, note_body)), new_note(self).todo_payload == extra_kwargs.get('todo_payload'))",
+        "tags": "implies(old(emits(self, note_body)), all(getattr_tags(new_note(self), t) == old(cur_tags_of(self._s, t)) for t in TAG_NAMES))",
+        "properties": "implies(old(emits(self, note_body)), new_note(self).properties == old(self._s.properties))",
+        "page": "implies(old(emits(self, note_body)), new_note(self).file_path == self.page.path)",
+        "flag-only-on-errors": "self.page.has_errors == (old(self.page.has_errors) or old(note_body is not None and note_body.getText().strip() != '' and len(self.error_manager.errors) > 0))",
+    },
+)
+
+
+def getattr_tags(n, t):
+    return n.areas if t == "areas" else n.contexts if t == "contexts" else n.links if t == "links" else n.people if t == "people" else n.projects
+
+
+def _add_note_effects(interp, loc, old):
+    """Call-site form of `emits-iff`: when the item emits, one fresh Note object is appended to the current
+    block (its fields are then constrained by the ensures clauses)."""
+    import z3
+    from engine import spec as S_
+    from engine import sym
+
+    ctx = interp.ctx
+    t = S_.eval_clause(interp, ADD_NOTE, "emits(self, note_body)", old, old, None)
+    from engine.interp import _as_term
+
+    if ctx.branch(_as_term(t), "_add_note emits"):
+        note = NOTE_T.fresh(ctx, "note")
+        blk = sym.force(ctx, loc["self"].fields["_s"].fields["block"])
+        blk.fields["notes"].tail.append(note)
+
+
+NOTE_T = T.rec("Note", {
+    "body": T.str(), "file_path": T.path(), "line_no": T.int(), "areas": T.listval(T.str()), "block": T.const(None), "contexts": T.listval(T.str()),
+    "create_date": T.date(), "links": T.listval(T.str()), "modify_date": T.date(), "people": T.listval(T.str()), "projects": T.listval(T.str()),
+    "properties": PROPS(), "todo_payload": T.opt(T.rec("TodoPayload", {"priority": T.str(), "status": T.enum(NoteType)}, cls=TodoPayload)), "zid": T.opt(T.str()),
+}, cls=Note)
+
+from engine.spec import REGISTRY as _REG  # noqa: E402
+
+ADD_NOTE = _REG[M + "_add_note"]
+ADD_NOTE["effects"] = _add_note_effects
+ADD_NOTE["havoc_skip"] = ("self._s.block.notes",)
+
+_EXIT_REQ = {
+    "inside-a-block": "self._s.block is not None",
+    "no-bullet-property-markers (bounded tier)": "ctx.note_body() is None or (':: ' not in ctx.note_body().getText().strip() and '::\\n' not in ctx.note_body().getText().strip())",
+}
+_EXIT_COMMON = {
+    "emits-iff": "(self._s.block.notes == plist_append(old(self._s.block.notes), new_note(self))) if old(emits(self, ctx.note_body())) else (self._s.block.notes == old(self._s.block.notes))",
+    "body": "implies(old(emits(self, ctx.note_body())), new_note(self).body == ctx.note_body().getText().strip())",
+    "line": "implies(old(emits(self, ctx.note_body())), new_note(self).line_no == ctx.note_body().start.line)",
+    "identity": "implies(old(emits(self, ctx.note_body())), new_note(self).zid == old(self._s.zid) and new_note(self).create_date == old(self._s.create_date))",
+    "region-left": "self._s.in_note == False",
+}
+contract(
+    M + "exitBase_note", props=["C01", "C08"], args={"self": SELF(), "ctx": CTX(T.str(), note_body=NOTE_BODY)}, requires=_EXIT_REQ, frame=True,
+    modifies={"self._s.block.notes": T.plist(), "self.page.has_errors": T.bool(), "self._s.in_note": T.bool()},
+    ensures={**_EXIT_COMMON, "plain-note-has-no-payload": "implies(old(emits(self, ctx.note_body())), new_note(self).todo_payload is None)"},
+)
+contract(
+    M + "exitBase_todo", props=["C01", "C08"], args={"self": SELF(), "ctx": CTX(T.str(), note_body=NOTE_BODY)}, requires=_EXIT_REQ, frame=True,
+    modifies={"self._s.block.notes": T.plist(), "self.page.has_errors": T.bool(), "self._s.in_note": T.bool(), "self._s.todo_priority": T.str(), "self._s.todo_status": T.enum(NoteType)},
+    ensures={
+        **_EXIT_COMMON,
+        "payload-is-what-the-prefix-said": "implies(old(emits(self, ctx.note_body())), new_note(self).todo_payload is not None and "
+                                           "new_note(self).todo_payload.priority == old(self._s.todo_priority) and new_note(self).todo_payload.status == old(self._s.todo_status))",
+        "defaults-restored": "self._s.todo_priority == DEFAULT_PRIORITY and self._s.todo_status == NoteType.OPEN_TODO",
+    },
+)
